@@ -19,6 +19,7 @@ func c07Disp(entry string, n []uint64, f []string) string {
 	}
 	payload := c07Arg(f, 0)
 	var log []string
+	fsmSent := 0
 	d := &Dispatcher{
 		HandlePAP: func(code, id uint8, data []byte) error {
 			log = append(log, "6", c07U(uint64(code)), c07U(uint64(id)), c07TB(data))
@@ -45,7 +46,7 @@ func c07Disp(entry string, n []uint64, f []string) string {
 		d.PhaseFn = func() ppp.Phase { return ppp.PhaseOpen }
 	}
 	if fsm := c07Num(n, 3); fsm != 0 {
-		cb := ppp.Callbacks{Send: func(code, id uint8, data []byte) {}}
+		cb := ppp.Callbacks{Send: func(code, id uint8, data []byte) { fsmSent++ }}
 		d.LCP, d.IPCP, d.IPv6CP = ppp.NewLCP(cb), ppp.NewIPCP(cb), ppp.NewIPv6CP(cb)
 		defer d.LCP.FSM().Kill()
 		defer d.IPCP.FSM().Kill()
@@ -53,6 +54,8 @@ func c07Disp(entry string, n []uint64, f []string) string {
 		if fsm == 2 {
 			d.LCP.FSM().Restore()
 			d.IPCP.FSM().Restore()
+			d.IPv6CP.FSM().Open()
+			d.IPv6CP.FSM().Up()
 		} else {
 			d.LCP.FSM().Open()
 			d.LCP.FSM().Up()
@@ -65,6 +68,7 @@ func c07Disp(entry string, n []uint64, f []string) string {
 			d.IPv6CP.FSM().Restore()
 		}
 	}
+	sentBefore := fsmSent // Configure-Requests the automata sent while being brought up
 	err := d.HandleFrame(uint16(c07Num(n, 0)), payload)
 	switch err {
 	case nil:
@@ -76,7 +80,15 @@ func c07Disp(entry string, n []uint64, f []string) string {
 		return "err 9"
 	}
 	if len(log) == 0 {
-		return "ok 0"
+		log = []string{"0"}
+	}
+	// did an automaton answer?  reported where that is predictable from the packet (Configure-Request, Terminate-Request,
+	// unknown code): tells "delivered to the FSM" from "dropped"
+	proto := uint16(c07Num(n, 0))
+	if c07Num(n, 3) != 0 && (proto == ppp.ProtoLCP || proto == ppp.ProtoIPCP || proto == ppp.ProtoIPv6CP) && len(payload) > 0 {
+		if c := payload[0]; c == 1 || c == 5 || c == 0 || c > 11 {
+			log = append(log, "77", c07Bool(fsmSent > sentBefore))
+		}
 	}
 	return c07Ok(log...)
 }
